@@ -22,7 +22,7 @@ PROPS = {
         "kani": [],
         "native": [
             {"name": "cached_maps_read_your_writes", "bin": "replay_c09", "crate": "replay", "thorough_seeds": 96, "tiers": ("quick", "thorough"),
-             "bound": "directed staging histories (W1, W2, older-committed variants), directed cold-spill reads (1023..2100 durable members, with and without staged operations; many staged removes and few staged inserts: finding F6), a cache-miss load ordered against a remove through a read gate of the mock store (both wide-column maps) + 26 seeded random histories of get/insert/remove over the three cached maps with batches submitted at random points, cache capacities 1/2/4/64, sets across the 1024 spill threshold; every read compared with a reference map (real code, native execution, background writer not controlled)"},
+             "bound": "directed staging histories (W1, W2, older-committed variants), directed cold-spill reads (1023..2100 durable members, with and without staged operations; many staged removes and few staged inserts: finding F6), a cache-miss load ordered against a remove through a read gate of the mock store (both wide-column maps), a write issued while a reader is inside the key's staging log (gated element Clone), a commit + flush landing inside a too-large set's store scan (scan gate + commit hold) + 26 seeded random histories of get/insert/remove over the three cached maps with batches submitted at random points, cache capacities 1/2/4/64, sets across the 1024 spill threshold; every read compared with a reference map (real code, native execution, background writer not controlled)"},
         ],
         "witness": witness.c09,
         "assumptions": [
